@@ -25,7 +25,7 @@ def read_matrix(fn):
         return m
     for l in open(p):
         f = l.split()
-        if len(f) < 6 or not re.match(r'C\d\d[A-D]$', f[0]):
+        if len(f) < 6 or not re.match(r'C\d\d[A-F]$', f[0]):
             continue
         rc = int(f[3].split('=')[1])
         clauses = re.findall(r'clause=([^ (]+)', l)
@@ -33,8 +33,8 @@ def read_matrix(fn):
     return m
 
 def seeded_table():
-    first = read_matrix('matrix-quick.txt'); first.update(read_matrix('matrix-r2-first.txt'))
-    final = read_matrix('matrix-final.txt')
+    first = read_matrix('matrix-quick.txt'); first.update(read_matrix('matrix-r2-first.txt')); first.update(read_matrix('matrix-r3-first.txt'))
+    final = read_matrix('matrix-final.txt'); final.update(read_matrix('matrix-r3-final.txt'))
     extra = read_matrix('matrix-extra.txt')
     rows = ["| change | what it breaks (needs) | first run (own quick check) | after strengthening | caught by |",
             "|---|---|---|---|---|"]
